@@ -342,11 +342,16 @@ class C05(Sides, ExecSide, C05Pipe):
     exec_n = (100, 2000)
     # the client's end of the pipeline: what the application's Task objects end up showing, under any delivery
     # order of the notifications (the C06 check: real TaskManager._update_tasks / Task._update, States model)
-    side_specs = [Spec('client', 'c06', ['progression', 'final_state_consistent', 'no_exception'])]
+    side_specs = [Spec('client', 'c06', ['progression', 'final_state_consistent', 'no_exception']),
+                  # the tmgr scheduler's entry points called from its three threads at once (the C12 interleaving
+                  # cases): every submitted task is forwarded once or waiting, and no thread gets stuck
+                  Spec('tsched', 'c12', ['lin_terminates', 'lin_exactly_once'],
+                       only=lambda c: isinstance(c, dict) and 'inter' in c)]
     exec_total = len(C05Pipe.clauses) + len(exec_sel)
-    clauses = C05Pipe.clauses + ['exec:' + c for c in exec_sel] + side_specs[0].clause_names()
-    extra_targets = C05Pipe.extra_targets + ['States/Oracle.vo']
-    model_targets = C05Pipe.model_targets + ['States/Oracle.vo']
+    clauses = (C05Pipe.clauses + ['exec:' + c for c in exec_sel] + side_specs[0].clause_names()
+               + side_specs[1].clause_names())
+    extra_targets = C05Pipe.extra_targets + ['States/Oracle.vo', 'TmgrSched/Oracle.vo', 'TmgrSched/Lin.vo']
+    model_targets = C05Pipe.model_targets + ['States/Oracle.vo', 'TmgrSched/Oracle.vo', 'TmgrSched/Lin.vo']
     rule = (C05Pipe.rule + '; ' + ExecSide.exec_rule + '; client side: histories of notification batches over 1-4 '
             'tasks with duplicates, reordering, gaps and contradictory finals (as for C06)')
 
